@@ -401,7 +401,13 @@ func visitInstr(fr *frame, instr ssa.Instruction) continuation {
 				fr.env[instr] = &symptr{elems: elems, idx: s}
 				break
 			}
+			// non-scalar elements: case split over the (in-range) index values
+			saved := i.cfg.maxConcretize
+			if len(elems) <= 256 && len(elems) > saved {
+				i.cfg.maxConcretize = len(elems)
+			}
 			idx = int(i.concretize(s, "indexaddr"))
+			i.cfg.maxConcretize = saved
 		}
 		k := asInt64(idx)
 		if k < 0 || k >= int64(len(elems)) {
